@@ -8,7 +8,9 @@ def _nontrivial(op, out):
 
 def _corr_skip(op, impl, model):
     # float(String): Float or NULL is decided by strconv.ParseFloat, which is not modelled
-    return op.startswith("fnty float 2 ") and impl in ("ty 0", "ty 2")
+    if op.startswith("fnty float 2 ") or op.startswith("evalfnty float "):
+        return impl in ("ty 0", "ty 2") and model in ("ty 0", "ty 2")
+    return False
 
 
 PROP = dict(
